@@ -271,37 +271,7 @@ func genAdd(r *common.Rng) addCase {
 			c.meta = append(c.meta, [2]int{r.Intn(8), r.Intn(8)})
 		}
 	}
-	c.defuse()
 	return c
-}
-
-// defuse: a request in the K12 zone (hash other than sha2-256, CID version 0) makes the handler panic; if
-// progress=true it has queued output by then, and the streamOutput goroutine can touch the response
-// writer after net/http tore it down - a nil dereference outside any recover that kills the whole
-// process (this harness; in production the cluster peer). The race cannot be a deterministic case, so
-// generated requests in the zone never ask for progress; notes/C11.md has the reproduction
-// (`c11 -suite crashprobe`).
-func (c *addCase) defuse() {
-	hash, cidv := "", ""
-	for _, q := range c.query {
-		if q.key == "hash" && hash == "" && q.class == 'v' {
-			hash = q.val
-		}
-		if q.key == "cid-version" && cidv == "" && q.class == 'v' {
-			cidv = q.val
-		}
-	}
-	if hash == "" || hash == "sha2-256" || cidv == "1" {
-		return
-	}
-	var kept []qparam
-	for _, q := range c.query {
-		// (nor a chunker: where exactly the multi-chunk builders trip over the bad prefix is the adder's business)
-		if q.key != "progress" && q.key != "chunker" {
-			kept = append(kept, q)
-		}
-	}
-	c.query = kept
 }
 
 func sysAdd() []addCase {
